@@ -37,10 +37,28 @@ def prod(xs):
     return r
 
 
-def simp(e):
+CUT = [None]  # when set to an int: polynomials with more terms are interned as a single (signed) symbol
+
+
+def set_cut(n):
+    CUT[0] = n
+
+
+def cut(p):
+    """Intern a polynomial as one symbol, canonical up to sign: equal polynomials give the same symbol and
+    cut(-p) == -cut(p).  Sound for proving equalities between two runs of the same code (the symbol stands
+    for exactly that polynomial); used to keep terms small when whole networks are interpreted."""
+    sgn, q = canon_sign(p)
+    c = Poly.symbol(("cut", pk(q)[1]))
+    return -c if sgn < 0 else c
+
+
+def simp(e, allow_cut=True):
     if isinstance(e, Poly):
         if e.is_const():
             return e.const_value()
+        if allow_cut and CUT[0] is not None and len(e.terms) > CUT[0]:
+            return cut(e)
         return e
     if isinstance(e, float):
         return to_num(e)
@@ -485,10 +503,11 @@ def _ew_num(op, a, b):
 
 
 def _ew_sym(op, a, b):
+    # sums are never interned (accumulation order must not matter); products and reductions are
     if op == "add":
-        return simp(a + b)
+        return simp(a + b, False)
     if op == "sub":
-        return simp(a - b)
+        return simp(a - b, False)
     if op == "mul":
         return simp(a * b)
     if op == "div":
@@ -1077,7 +1096,10 @@ def getitem(a, key):
             groups.append(("int", (i % n) * st[ax]))
         elif isinstance(k, Arr):
             if k.elems is None:
-                raise Unsupported("indexing with an untracked index array")
+                # index values unknown: only the shape of the result is determined
+                key3 = [Arr(kk.shape, [0] * kk.size, "int") if (isinstance(kk, Arr) and kk.elems is None) else kk for kk in key]
+                shp = getitem(Arr(A.shape, None, A.dtype), tuple(key3)).shape
+                return Arr(shp, None, A.dtype)
             if not k.is_concrete():
                 if A.elems is not None:
                     return _select(A, key, ax, k)
